@@ -277,9 +277,12 @@ CATALOGUE = [
          new="            if False and width_fmt.endswith(')') and '(' in width_fmt:\n",
          note="the original defect (fixed in /repo): 'a:3-10(7)' rejected"),
     dict(id="m13_stale_widths", prop="C13", file="ak/ppobj.py",
-         old="        new_fmt_obj = self._ppt_fmt.clone()\n        new_fmt_obj.remove_columns(columns_names)\n        self._ppt_fmt = new_fmt_obj\n",
-         new="        self._ppt_fmt.remove_columns(columns_names)\n",
-         note="the original defect (fixed in /repo): stale widths after remove_columns"),
+         edits=[("        new_fmt_obj = self._ppt_fmt.clone()\n        new_fmt_obj.remove_columns(columns_names)\n        self._ppt_fmt = new_fmt_obj\n",
+                 "        self._ppt_fmt.remove_columns(columns_names)\n"),
+                ("            c.clone() for c in self.columns\n            if c.name not in columns_names\n",
+                 "            c for c in self.columns\n            if c.name not in columns_names\n")],
+         note="the original defect (fixed in /repo by da010bb + 77f949d; either repair alone makes PPTable.remove_columns "
+              "re-detect the widths, so the first edit alone is an equivalent mutant since 77f949d): stale widths after remove_columns"),
     dict(id="m13_stale_widths_fmtobj", prop="C13", file="ak/ppobj.py",
          old="            c.clone() for c in self.columns\n            if c.name not in columns_names\n",
          new="            c for c in self.columns\n            if c.name not in columns_names\n",
